@@ -213,8 +213,23 @@ def run_project_check(prop, tier):
     if len(new) > max_report:
         lines.append("  (%d further distinct violation signatures not minimised; rerun after fixing the above)" % (len(new) - max_report))
         nviol += len(new) - max_report
+    fid = None
+    if prop == "C20":
+        # fidelity tier: the in-process kill model against real SIGKILL of real child interpreters (DESIGN §2.2, §11.7)
+        from dtsim import selftest
+
+        import contextlib
+        import io
+
+        buf = io.StringIO()
+        with contextlib.redirect_stdout(buf):
+            frc, fid = selftest.fidelity(12 if tier == "quick" else 300)
+        if frc:
+            raise HarnessError("fidelity tier: the in-process kill model disagrees with a real SIGKILL: %s" % buf.getvalue()[-800:])
     wall = time.monotonic() - t0
     cov = project_coverage(prop, tier, stats, nruns, other, samples, pstats, wall, known_hit)
+    if fid:
+        cov["fidelity_tier_real_sigkill"] = fid
     core.write_evidence(prop, tier, base, LEVEL.get(prop, "exploration"), cov, wall, nviol, ASSUMPTIONS_COMMON + ASSUMPTIONS_PROJECT)
     for ln in lines:
         print(ln)
